@@ -311,6 +311,12 @@ var runtimePatches = map[string][][2]string{
 	},
 	"rand.go": {
 		{"func maps_rand() uint64 {\n\treturn rand()\n}", "func maps_rand() uint64 {\n\tif gp := getg(); gp != nil && gp.bubble != nil {\n\t\treturn kgBubbleRand64(gp.bubble) // kgsim: the bubble's own coin\n\t}\n\treturn rand()\n}"},
+		// runtime.rand itself (seeds of sync.Map's hash trie, math/rand/v2's global source, ...) for bubble goroutines
+		{"\tmp := getg().m\n\tc := &mp.chacha8\n\tfor {\n", "\tif gp := getg(); gp.bubble != nil && gp.m.curg == gp {\n\t\treturn kgBubbleRand64(gp.bubble) // kgsim: the bubble's own coin\n\t}\n\tmp := getg().m\n\tc := &mp.chacha8\n\tfor {\n"},
+		// one fixed process-wide seed: the hash functions' key schedule (string and integer keys hash the same
+		// in every worker process, so the layout of maps and hash tries follows the program only) and the seeds
+		// of maps created before the bubble exists
+		{"\tglobalRand.state.Init(*seed)\n", "\tfor i := range seed {\n\t\tseed[i] = byte(0xa5 ^ i) // kgsim: fixed (see cmd/kgcheck/build.go)\n\t}\n\tglobalRand.state.Init(*seed)\n"},
 	},
 	"synctest.go": {
 		{"\tactive  int // other sources of activity\n}", "\tactive  int // other sources of activity\n\n\tkgrand uint64 // kgsim: state of the bubble's own PRNG\n}\n\n" + kgRuntimeFuncs},
@@ -320,6 +326,8 @@ var runtimePatches = map[string][][2]string{
 const kgRuntimeFuncs = `// kgBubbleRand64 is the PRNG of a bubble (splitmix64). Goroutines of a bubble
 // run one at a time in the worker (GOMAXPROCS=1), so the sequence of calls is a
 // function of the program.
+//
+//go:nosplit
 func kgBubbleRand64(b *synctestBubble) uint64 {
 	if b == nil {
 		return uint64(cheaprand())<<32 | uint64(cheaprand())
